@@ -1,7 +1,22 @@
 CLAIMS.update({
     "C01": (
-        "Every sequencing/choice/option/lookahead combinator's real go body is proved (Kani/CBMC, loop-free harness, symbolic input of unbounded length, symbolic entry state, every behaviour the parser contract allows its children) to satisfy the PEG equation of that node; whole-grammar PEG semantics follows by structural induction over the contracts. Right level because the property quantifies over all grammars x all inputs, which only a modular proof covers.",
+        "Every primitive matcher and every sequencing/choice/option/lookahead/output-transforming combinator's real go body is proved (Kani/CBMC, loop-free harness, symbolic input of unbounded length, symbolic entry state, every behaviour the parser contract allows its children) to satisfy the PEG equation of that node; whole-grammar PEG semantics follows by structural induction over the contracts. Right level because the property quantifies over all grammars x all inputs, which only a modular proof covers.",
         "Assumes the child contract (itself asserted of every combinator), parametricity of safe generic code, Kani/CBMC soundness; slice/Vec choice and multi-token just are bounded stand-ins (listed, not counted).",
         "DESIGN 3, 4/C01",
+    ),
+    "C02": (
+        "The loop-free step functions Repeated::next/next_cfg and SeparatedBy::next (and the adaptor steps enumerate/map/or_not) are proved for all bounds, counts, flags, child behaviours and input lengths against the statement's case table (greedy, possessive, [at_least, at_most], separator only between items or where leading/trailing allows); the drivers that merely iterate a step (collect, count, foldl, foldr, Repeated::go) are bounded stand-ins (<=2 items per run), listed and not counted.",
+        "Child contract incl. progress of items (K-prog); drivers bounded; the unbounded lift from steps to whole repetitions is the count induction (DESIGN 3.5 L-count).",
+        "DESIGN 3.7, 4/C02",
+    ),
+    "C04": (
+        "Every combinator harness is instantiated at Check mode and must satisfy the same mode-free specification (call pattern and entry states of children, acceptance, position, emitted errors, pending error, inspector) as at Emit; children are mode-independent by contract, so check() and parse() coincide node by node and hence for every grammar. Value-eliding forms (ignore_then, then_ignore, to, ignored, to_slice, to_span, delimited_by, padded_by) are proved against the same specification as their value-building forms.",
+        "Same assumptions as C01; a two-run comparison in one harness is not used (too expensive), both runs are compared against one specification instead.",
+        "DESIGN 4/C04",
+    ),
+    "C05": (
+        "Emission-framing postcondition proved on every backtracking site covered: on success the emitted-error list is exactly the entry list followed by the emissions of the children whose result is kept, in call order; abandoned children leave nothing (each retried child is entered with the entry list); on failure the entry list is a prefix. Same for the inspector checkpoint (rewound before each retry).",
+        "Under CBMC the list is compared by length at every observation point (contents natively in the small-scope sweep); equal lengths imply equal contents because the list is only pushed to / truncated (source scan reported in evidence).",
+        "DESIGN 4/C05",
     ),
 })
